@@ -32,7 +32,7 @@
      the source on those instances), and the result is compared with what Python was asked to
      write, decoded independently of the Go code.
    The Python-written files are therefore covered instance by instance, not by a theorem. *)
-From Mcap Require ConstsTie LayoutTie. (* regenerated ties to /repo's source that this property's model relies on *)
+From Mcap Require ConstsTie LayoutTie PyDecisionTie. (* regenerated ties to /repo's source that this property's model relies on *)
 From Coq Require Import List NArith ZArith Bool.
 From Coq.Strings Require Import Byte.
 From Mcap Require Import Bytes GoSem Crc32 Records RecordsFacts Writer WriterFactsB Lexer LexSpec LexerFactsB
